@@ -516,7 +516,9 @@ def r02_5(ctx: Ctx):
         fors = [n for n in ast.walk(fr.node) if isinstance(n, ast.For)]
         whole = False
         for n in fors:
-            objs = ctx.pta.expr_pts(fr, n.iter)
+            objs = set(ctx.pta.expr_pts(fr, n.iter))
+            for _ in range(3):      # map(f, IT) ranges over IT
+                objs |= {x for o in list(objs) for x in ctx.pta.get(('F', o, '<maps>'))}
             if any(o.cls is not None and o.cls.is_subclass_of(ctx.ix.cls('SearchData')) for o in objs) and \
                     not isinstance(n.iter, ast.Subscript) and \
                     not any(isinstance(x, (ast.Break, ast.Continue)) for b in n.body for x in ast.walk(b)):
